@@ -118,6 +118,10 @@ struct Ctx
     // hit is recorded and the call returns.
     void violate(const std::string &property, const std::string &cls, const std::string &tags, const std::string &detail, bool continuable = false);
     const std::set<std::string> *knownSigs = nullptr;
+    // Observations: an auxiliary run (see Engine::auxiliary) publishes what it saw under a key; the main run
+    // finds them in `expected` and compares with what it sees itself.
+    void observe(const std::string &key, const std::string &digest);
+    const std::map<std::string, std::string> *expected = nullptr;
     void finish(); // write the final record
     void send(const std::string &line);
 };
@@ -148,6 +152,10 @@ struct Engine
     std::function<std::vector<Plan>(const Plan &)> simplify;
     // Optional: number of deterministic (non-random) runs walked before the seeded ones (sweeps).
     std::function<uint64_t(const Opts &)> sweepSize;
+    // Optional: plans executed in fresh children BEFORE the main run (isolation slices, the same plan under another
+    // allocator policy, ...).  Their observations are handed to the main run through Ctx::expected.
+    std::function<std::vector<Plan>(const Plan &)> auxiliary;
+    size_t firstShrinkableArg = 0; // arguments before this index are identities, not values: the shrinker leaves them alone
     double timeoutS = 20;
     std::string crashProperty = "C09"; // property under which a crash / sanitizer report / timeout of the child is filed
 };
